@@ -37,6 +37,9 @@ DECLS = {
     "Bp": "    a = Int(1)\n    b = Int(2)\n",
     # H and Hp: the same fields, written the same way; they differ only in the hooks their descriptor DESC brings
     # (before-pack only / before-pack and after-unpack), i.e. in the code generated AROUND the field blocks
+    # L and Lp: fields that generated code reaches through the class's field list (no struct code), in either order
+    "L": "    a = Int(3)\n    b = Data(until_marker=b'\\x05')\n",
+    "Lp": "    a = Data(until_marker=b'\\x03')\n    b = Int(3)\n",
     "H": "    a = Int(1).describe(DESC)\n    b = Int(1)\n",
     "Hp": "    a = Int(1).describe(DESC)\n    b = Int(1)\n",
 }
@@ -264,13 +267,18 @@ def _child_main(rfd, wfd, workdir, decl, opts, bytecode_on, refs, free_run, more
 
 
 class Child:
-    def __init__(self, base, name, decl, opts="default", bytecode_on=False, refs=None, free_run=False, more_defs=()):
+    def __init__(self, base, name, decl, opts="default", bytecode_on=False, refs=None, free_run=False, more_defs=(), same_dir=False):
         self.name, self.decl = name, decl
-        self.workdir = os.path.join(base, name)
-        os.makedirs(self.workdir, exist_ok=True)
-        link = os.path.join(self.workdir, "__pkts__")
-        if not os.path.lexists(link):
-            os.symlink(os.path.join(base, "shared"), link)
+        if same_dir:
+            # several processes defining the class from ONE source directory whose __pkts__ does not exist yet
+            self.workdir = os.path.join(base, "same")
+            os.makedirs(self.workdir, exist_ok=True)
+        else:
+            self.workdir = os.path.join(base, name)
+            os.makedirs(self.workdir, exist_ok=True)
+            link = os.path.join(self.workdir, "__pkts__")
+            if not os.path.lexists(link):
+                os.symlink(os.path.join(base, "shared"), link)
         c2p_r, c2p_w = os.pipe()
         p2c_r, p2c_w = os.pipe()
         self.pid = os.fork()
@@ -383,9 +391,9 @@ class World:
         self.bytecode_on = bytecode_on
         self.n = 0
 
-    def child(self, decl, opts="default", free_run=False, more_defs=()):
+    def child(self, decl, opts="default", free_run=False, more_defs=(), same_dir=False):
         self.n += 1
-        c = Child(self.base, "c%d" % self.n, decl, opts, self.bytecode_on, self.refs, free_run, more_defs)
+        c = Child(self.base, "c%d" % self.n, decl, opts, self.bytecode_on, self.refs, free_run, more_defs, same_dir)
         if not free_run:
             c.advance()
         return c
